@@ -180,7 +180,7 @@ class DoctestParser:
         # If all lines begin with the same indentation, then strip it.
         min_indent = _min_indentation(string)
         if min_indent > 0:
-            string = '\n'.join([ln[min_indent:] for ln in string.splitlines()])
+            string = '\n'.join([ln[min_indent:] for ln in _source_lines(string)])
 
         labeled_lines = None
         grouped_lines = None
@@ -710,7 +710,7 @@ class DoctestParser:
         #     want -> [want, text, dsrc]
         prev_state = TEXT
         curr_state = None
-        line_iter = enumerate(string.splitlines())
+        line_iter = enumerate(_source_lines(string))
 
         for line_idx, line in line_iter:
             match = INDENT_RE.search(line)
@@ -826,6 +826,32 @@ class DoctestParser:
             print('</FINISH LABELED LINES>')
 
         return labeled_lines
+
+
+_LINE_BREAK_RE = re.compile('\r\n|\r|\n')
+
+
+def _source_lines(s):
+    """
+    Split text into lines like :func:`str.splitlines`, but only at the line
+    breaks of a Python source file (``\\n``, ``\\r\\n`` and ``\\r``).
+
+    Characters such as form feeds, vertical tabs, the file / group / record
+    separators, NEL and the unicode line / paragraph separators stay inside
+    their line.  When they are written as an escape in a docstring they do not
+    end a line of the file, so counting them as line breaks would shift every
+    reported line number after them.
+
+    Example:
+        >>> from xdoctest.parser import _source_lines
+        >>> assert _source_lines('a\\nb\\n') == ['a', 'b']
+        >>> assert _source_lines('a\\x0cb\\n\\nc') == ['a\\x0cb', '', 'c']
+        >>> assert _source_lines('') == []
+    """
+    lines = _LINE_BREAK_RE.split(s)
+    if lines and lines[-1] == '':
+        lines.pop()
+    return lines
 
 
 def _min_indentation(s):
